@@ -6,6 +6,8 @@
 import SoupVerif.Model.Api
 import SoupVerif.Model.Codec
 import SoupVerif.Generated.Regexes
+import SoupVerif.Generated.Lexicon
+import SoupVerif.Model.Parser
 open SoupVerif
 
 def wildStripImpl (s : Str) : Str :=
@@ -38,6 +40,13 @@ def runQuery (E : Env) (d : Doc) (sel : SelList) (ns : List (Str Ã— Str)) : Sx â
         | 4 => optPath (selectOne E d.isXml ns sel tag)
         | _ => .int (-4)
   | _ => .int (-5)
+
+def errCode : Parser.ErrKind â†’ Int
+  | .undefinedCustom => 1 | .invalidPseudoSyntax => 2 | .unknownPseudo => 3 | .multipleCombinators => 4
+  | .combinatorNeedsSelector => 5 | .expectedSelector => 6 | .unmatchedClose => 7 | .tagNotAtStart => 8
+  | .unclosedPseudo => 9 | .malformedAttribute => 10 | .malformedClass => 11 | .malformedId => 12
+  | .malformedPseudo => 13 | .invalidCharacter => 14 | .badCustomName => 15 | .atRule => 20 | .pseudoElement => 21
+  | .customCollision => 30 | .pyBug _ => 99
 
 def handle (req : Sx) : Sx :=
   match req with
@@ -83,6 +92,17 @@ def handle (req : Sx) : Sx :=
   | .list [.int 6, y, m, d] =>
     match y.toNat?, m.toNat?, d.toNat? with
     | some y, some m, some d => Sx.ofBool (Inputs.validateDay y m d)
+    | _, _, _ => .int (-9)
+  -- parser service: (7 pattern ((name def) ...) parseFlags)
+  | .list [.int 7, pat, .list customs, pf] =>
+    let cs := customs.mapM fun
+      | .list [k, v] => do pure (â† k.toStr?, â† v.toStr?)
+      | _ => none
+    match pat.toStr?, cs, pf.toNat? with
+    | some pat, some cs, some pf =>
+      match Parser.compile asciiEnv Gen.lexicon Gen.builtinsRec pat cs pf with
+      | .ok l => .list [.int 0, Codec.encSelList l]
+      | .error e => .list [.int 1, .int (errCode e.kind), Sx.ofNat e.offset, Sx.ofStr e.pattern]
     | _, _, _ => .int (-9)
   | _ => .list [.int (-10)]
 
